@@ -788,3 +788,24 @@ def write_evidence(prop_id, tier, results, violations, known_hits, wall, repo, e
     os.makedirs(d, exist_ok=True)
     with open(os.path.join(d, prop_id + '.json'), 'w') as fh:
         json.dump(ev, fh, indent=1, default=str)
+
+
+def reid(res, pid):
+    """Re-issue the result of a rule of a neighbouring property under the property `pid`: a change to a mechanism two properties share (the trial loop of LM for
+    C07 / C08 / C09, the retraction for C03 / C05 / C07, broadcast_inputs for C01 .. C06) is a violation of each of them and is reported by the check of each.
+    `C08.STRAT` becomes `C07.STRAT_C08`."""
+    if isinstance(res, (list, tuple)):
+        out = []
+        for r in res:
+            x = reid(r, pid)
+            out += x if isinstance(x, list) else [x]
+        return out
+    def new(old):
+        op, _, nm = old.partition('.')
+        return '%s.%s_%s' % (pid, nm, op) if op != pid else old
+    res.rule = new(res.rule)
+    for f in res.findings:
+        f.rule = new(f.rule)
+    if getattr(res, 'error', None):
+        res.error = '%s [shared with %s]' % (res.error, pid)
+    return res
